@@ -86,7 +86,14 @@ def describe_error(err, probe=None):
     if isinstance(err, E.InputStreamBytesDepletedError):
         return {"kind": "depleted", "command_code": _int_or_none(err.command_code)}
     if isinstance(err, E.InputStreamSuperfluousBytesError):
-        return {"kind": "superfluous", "remaining": bytes(err.bytes_remaining), "command_code": _int_or_none(err.command_code)}
+        # a caller may log the error first and read the surplus more than once: the value used is the one read last
+        _ = str(err)
+        first = bytes(err.bytes_remaining)
+        last = bytes(err.bytes_remaining)
+        d = {"kind": "superfluous", "remaining": last, "command_code": _int_or_none(err.command_code)}
+        if first != last:
+            d["remaining_first_read"] = first
+        return d
     d = {}
     if isinstance(err, E.ValueConstraintViolatedError):
         c = err.constraint
